@@ -136,9 +136,12 @@ func specGo(cs []genCheck, level string, v api.Version) []int {
 		}
 	}
 	V := mx
-	if !v.Latest() && v.Minor() < mx {
-		V = v.Minor()
+	if !v.Latest() && v.Major() < 1 {
+		return []int{} // older than every registered revision (all of them are v1.N): nothing was introduced yet
 	}
+	if !v.Latest() && v.Major() == 1 && v.Minor() < mx {
+		V = v.Minor()
+	} // a later major is newer than every registered revision: behaves as the newest
 	sel := map[string]*genRev{}
 	var bids, rids []string
 	for i := range cs {
@@ -198,7 +201,9 @@ func runC04(c *Ctx) {
 		for m := 0; m <= 14; m++ {
 			queries = append(queries, q{l, api.MajorMinorVersion(1, m)})
 		}
-		queries = append(queries, q{l, api.LatestVersion()}, q{l, api.MajorMinorVersion(1, 1000000)})
+		queries = append(queries, q{l, api.LatestVersion()}, q{l, api.MajorMinorVersion(1, 1000000)},
+			// other majors (api.MajorMinorVersion and api.GetAPIVersion can produce them): v2.N is newer than every revision, v0.N older
+			q{l, api.MajorMinorVersion(2, 0)}, q{l, api.MajorMinorVersion(2, 3)}, q{l, api.MajorMinorVersion(3, 1000)}, q{l, api.MajorMinorVersion(0, 3)}, q{l, api.MajorMinorVersion(0, 40)})
 	}
 	for _, x := range queries {
 		qj = append(qj, J{"level": x.level, "version": verJSON(x.v)})
